@@ -21,7 +21,9 @@ def header_constants():
 
 
 def run(ctx):
-    ctx.prove("ZwVerif.Props.C20", THEOREMS)
+    ctx.prove("ZwVerif.Props.C20", THEOREMS + ["ZwVerif.C20Int." + t for t in
+              ["literal_roundtrip", "literal_injective", "stoull_digits", "digits_shape", "classify_rendering", "finish_digits",
+               "parseInt_eq", "showConst_chars", "aux_matches_render"]], extra_targets=["ZwVerif.Props.C20Int"])
     h = zwcorr.Harness(ctx)
     rng = ctx.rng
     words = [zwcorr.unhx(w).decode() for w in h.words.split()[1:]]
@@ -95,6 +97,47 @@ def run(ctx):
                           {"stream": "C20-ints", "input": p, "expected": want, "got": got})
         else:
             int_ok += 1
+    # (2b) several constants of different domains rendered into ONE stream (a sequence through "%s", and nested): every element
+    # keeps its own domain and value when the text is read back
+    seq_ok = 0
+    sprogs = []
+    doms = [("", "dec"), ("hex", "hex"), ("oct", "oct"), ("bin", "bin")]
+    for _ in range(60 if ctx.tier == "quick" else 2000):
+        k = rng.randint(2, 5)
+        items = []
+        for _ in range(k):
+            v = rng.choice(vals)
+            cast, dom = rng.choice(doms)
+            items.append((v, cast, dom))
+        inner = ", ".join(("%d %s" % (v, c)).strip() for v, c, _ in items)
+        if rng.random() < 0.3:
+            inner = "[%s], %s" % (inner, "0x10")
+            items = [("nested", items), (16, "hex", "hex")]
+        sprogs.append(('[%s] "%%s"' % inner, items))
+    srecs, _ = h.run_impl_robust(["Q - " + zwcorr.hx(p) for p, _ in sprogs])
+    stexts = []
+    for (p, _), rec in zip(sprogs, srecs):
+        m = re.match(r"s\(([0-9a-f]*)\)@0", rec.res[0]) if rec.res else None
+        stexts.append(zwcorr.unhx(m.group(1)).decode() if m else None)
+    sback, _ = h.run_impl_robust(["Q - " + zwcorr.hx(t if t is not None else "0") for t in stexts])
+
+    def canon(items):
+        out = []
+        for it in items:
+            if it[0] == "nested":
+                out.append("[" + " ".join(canon(it[1])) + "]")
+            else:
+                out.append("c(%s|%d)" % (it[2], it[0]))
+        return out
+    for (p, items), t, rec in zip(sprogs, stexts, sback):
+        want = "[" + " ".join(canon(items)) + "]"
+        got = re.sub(r"@\d+", "", rec.res[0]) if rec.res else rec.err
+        if got != want:
+            ctx.violation("the sequence of %r prints as %r, which reads back as %r instead of %r" % (p, t, got, want),
+                          {"stream": "C20-seq", "input": p, "expected": want, "got": got, "theorem": "ZwVerif.C20Int.literal_roundtrip"})
+        else:
+            seq_ok += 1
+    ctx.cov["mixed_domain_sequences_ok"] = seq_ok
     # (3) the CLI's brief rendering of strings nested in sequences reads back as the same bytes
     im = ctx.impl("plain")
     alphabet = ['"', "\\", "%", "a", " ", "\x00", "\n", "\t", "\x07", "\x7f", "\x80", "\xff", "1", "0", "x", "s", "(", "'"]
